@@ -64,6 +64,19 @@ def build_harness():
         if mod2 != mod:
             open(os.path.join(HARN, "go.mod"), "w").write(mod2)
         rc, out = sh(["go", "build", "-o", "bin/", "./cmd/..."], cwd=HARN, timeout=900, env=GOENV)
+        if rc != 0:
+            # the harness reaches into internals only to pre-fill the pools with junk objects; when the
+            # representation of those objects changed, build without that (pool mode "dirty" = "recycled")
+            rc2, out2 = sh(["go", "build", "-tags", "nodirty", "-o", "bin/", "./cmd/..."], cwd=HARN, timeout=900, env=GOENV)
+            if rc2 == 0:
+                return True, "built with -tags nodirty (junk-filled pool objects unavailable): " + out[-600:]
+            # never run stale binaries against a tree they were not built from
+            for f in glob.glob(os.path.join(HARN, "bin", "*")):
+                try:
+                    os.remove(f)
+                except OSError:
+                    pass
+            return False, out + out2
         return rc == 0, out
 
 
@@ -315,6 +328,8 @@ def decide(pid, tier, seed):
     okh, outh = build_harness()
     if not okh:
         notes.append("harness does not build against /repo: " + outh[-1500:])
+    elif "nodirty" in outh:
+        notes.append("harness " + outh[:700])
     okc, outc = build_coq()
     forb = scan_forbidden()
     asm = coq_assumptions(pid) if okc else None
